@@ -66,8 +66,8 @@ impl Scenario for ScheduleScenario {
 
     fn runs(&self, tier: Tier) -> u64 {
         match tier {
-            Tier::Quick => 10_000,
-            Tier::Thorough => 200_000,
+            Tier::Quick => 30_000,
+            Tier::Thorough => 800_000,
         }
     }
 
